@@ -28,6 +28,7 @@ class Fold:
     callee_raises: Optional[str] = None        # L1 Bool expr over elem vars: the body raises iff this holds
     raises: Optional[str] = None               # exception name raised by the body in that case
     raises_fold: Optional[str] = None          # L1 Bool expr over the list: the loop raises iff ...
+    state_sorts: dict = field(default_factory=dict)   # state variable -> L1 sort (for variables initialised with an empty literal)
 
 
 @dataclass
@@ -41,6 +42,16 @@ class InPlaceMap:
     raises_fold: Optional[str] = None   # L1 Bool over `xs`
     elem_inv: Optional[str] = None      # L1 Bool over `c` assumed for every element ...
     list_inv: Optional[str] = None      # ... justified by this L1 Bool over `xs` (obligation at loop entry; checked to be `all elem_inv`)
+
+
+@dataclass
+class BackwardSplice:
+    """`for i in reversed(range(len(xs))): ... xs[i] = e | xs[i:i+1] = es` (only writes at i, only read xs[i])
+    == xs := fn(xs), fn = flatMap of `repl` (soundness: Lean theorem spliceLoop_all)"""
+    fn: str                       # L1 function over the list sort with fn(cons(c, r)) == append(repl(c), fn(r))
+    list_var: str
+    repl: str                     # L1 expression over `c` (a list): what replaces element c
+    fresh_when: Optional[str] = None   # L1 Bool over `c`: for these elements every written object must be newly allocated (C08)
 
 
 @dataclass
